@@ -292,6 +292,7 @@ def run(ctx):
     profile.check(ctx, rep, 'R09.P', ['creg_start', 'creg_finish', 'sreg_start', 'clog_start', 'clog_finish', 'slog_start'])
     from rules import lclone
     lclone.check(ctx, rep, 'R09.C')
+    an.vgroup_forwarding(ctx, rep, 'R09.D')
     return rep
 
 
